@@ -2,6 +2,7 @@ package rules
 
 import (
 	"go/token"
+	"go/types"
 	"strings"
 
 	"gunyucheck/core"
@@ -196,6 +197,11 @@ func c14(w *core.World, r *core.Report) {
 	r.Rule("R14.4", "in-memory resume point stored only after confirmation, with the confirmed values, by the senders themselves", 4)
 	r.Rule("R14.5", "a commit is reported without error only after its replies were validated", 3)
 	ruleConfirmedOnly(w, r)
+
+	r.Rule("R14.10", "sync mode executes a received unit once: an error ends the replay, the unit is not re-run", 1)
+	ruleSyncUnitExecutedOnce(w, r)
+	r.Rule("R14.9", "every valid replay mode is claimed by exactly one recovery format (UsesLatest xor UsesFrontier)", 3)
+	ruleModeFamilies(w, r)
 
 	r.Rule("R14.6", "recovery cleanup is bounded by the rebuilt frontier and touches journal keys only", 1)
 	if f := fn(w, r, "(*syncer.RedisOutput).cleanupRecoveredBisyncCommitRecords"); f != nil {
@@ -887,4 +893,137 @@ func ruleResumePointWriters(w *core.World, r *core.Report) {
 			r.Fail(shortName(sp.fn)+"/resume-point", f.Pos(), "the sender must record both the sequence and the offset of its confirmed progress (found seq=%v offset=%v)", seen["bisyncSeq"], seen["bisyncOffset"])
 		}
 	}
+}
+
+// ---------------------------------------------------------------- R14.9 every replay mode has exactly one recovery format
+
+// ruleModeFamilies: the recovery state of a bidirectional namespace is kept in
+// one of two formats: a 'latest' record per slot (UsesLatest) or a frontier
+// snapshot plus journal (UsesFrontier). The start-up code asks these predicates
+// whether a configured mode can take over a namespace in place or needs a
+// migration. For every valid mode exactly one of them must answer true; a mode
+// that both (or neither) claims is switched in place into a format it does not
+// read, the next start finds no recovery state and falls back to the end of the
+// full sync — every unit committed since is replayed again.
+func ruleModeFamilies(w *core.World, r *core.Report) {
+	latest := fn(w, r, "(pkg/redis/checkpoint.BisyncMode).UsesLatest")
+	frontier := fn(w, r, "(pkg/redis/checkpoint.BisyncMode).UsesFrontier")
+	valid := fn(w, r, "(pkg/redis/checkpoint.BisyncMode).Valid")
+	if latest == nil || frontier == nil || valid == nil {
+		return
+	}
+	// the modes: the string constants Valid accepts
+	var modes []string
+	for _, in := range core.OwnInstrs(valid) {
+		if b, ok := in.(*ssa.BinOp); ok && b.Op == token.EQL {
+			for _, v := range []ssa.Value{b.X, b.Y} {
+				if s, isS := core.ConstString(v); isS {
+					modes = append(modes, s)
+				}
+			}
+		}
+	}
+	if len(modes) < 3 {
+		r.Undecided("BisyncMode/one-recovery-format", valid.Pos(), "the set of valid modes was not read off Valid() (%d found)", len(modes))
+		return
+	}
+	eval := func(f *ssa.Function, mode string) (res, known bool) {
+		par := ssa.Value(f.Params[0])
+		found := false
+		core.EnumPathsN(f.Blocks[0], 0, 10000, 1, func(p *core.Path) {
+			ret, isRet := p.End.(*ssa.Return)
+			if !isRet || ret.Parent() != f || len(ret.Results) != 1 {
+				return
+			}
+			// is the path the one the mode takes?
+			for _, fct := range p.Conds {
+				c, ok := core.FactCmp(fct)
+				if !ok || (c.Op != token.EQL && c.Op != token.NEQ) {
+					return // a test this rule cannot evaluate
+				}
+				x, y := core.Unwrap(p.Resolve(c.X)), core.Unwrap(p.Resolve(c.Y))
+				if y == par {
+					x, y = y, x
+				}
+				s, isS := core.ConstString(y)
+				if x != par || !isS {
+					return
+				}
+				if (s == mode) != (c.Op == token.EQL) {
+					return // not this mode's path
+				}
+			}
+			if b, isB := core.ConstBool(p.Resolve(ret.Results[0])); isB {
+				res, found = b, true
+			} else if b, ok := p.Eval(ret.Results[0]); ok {
+				res, found = b, true
+			}
+		})
+		return res, found
+	}
+	for _, m := range modes {
+		l, okL := eval(latest, m)
+		fr, okF := eval(frontier, m)
+		if !okL || !okF {
+			r.Undecided("BisyncMode/one-recovery-format/"+m, latest.Pos(), "the predicates could not be evaluated for this mode")
+			continue
+		}
+		r.Check(l != fr, "BisyncMode/one-recovery-format/"+m, latest.Pos(), "mode %q: UsesLatest=%v, UsesFrontier=%v — exactly one recovery format must claim every valid mode", m, l, fr)
+	}
+}
+
+// ---------------------------------------------------------------- R14.10 sync mode executes a unit once
+
+// ruleSyncUnitExecutedOnce: an error from execBisyncUnit does not mean the
+// transaction was not executed: a command failing inside EXEC (a WRONGTYPE after
+// the other site wrote a conflicting value) leaves the other commands and the
+// 'latest' record applied. Sync mode therefore stops on an error and resumes after
+// the unit from its record. Re-running the unit first applies its non-idempotent
+// commands again, and the overwritten record shows nothing. On every path of
+// sendBisyncSync two executions are separated by a receive of the next unit.
+func ruleSyncUnitExecutedOnce(w *core.World, r *core.Report) {
+	f := fn(w, r, "(*syncer.RedisOutput).sendBisyncSync")
+	if f == nil {
+		return
+	}
+	isUnitChan := func(t types.Type) bool {
+		ch, ok := t.Underlying().(*types.Chan)
+		return ok && strings.HasSuffix(core.TypeName(ch.Elem()), "bisyncReplayUnit")
+	}
+	bad := ""
+	var pos token.Pos = f.Pos()
+	n := 0
+	okEnum := core.EnumPathsN(f.Blocks[0], 0, 400000, 2, func(p *core.Path) {
+		if bad != "" {
+			return
+		}
+		since := 0
+		for _, in := range p.Instrs {
+			switch x := in.(type) {
+			case *ssa.Select:
+				for _, st := range x.States {
+					if st.Dir == types.RecvOnly && isUnitChan(st.Chan.Type()) {
+						since = 0
+					}
+				}
+			case *ssa.UnOp:
+				if x.Op == token.ARROW && isUnitChan(x.X.Type()) {
+					since = 0
+				}
+			case *ssa.Call:
+				if strings.HasSuffix(core.ResolveCall(x).Name, ").execBisyncUnit") {
+					n++
+					since++
+					if since > 1 {
+						bad, pos = "a unit is executed a second time without a new unit having been received: its transaction may already have been applied by the target (an error inside EXEC does not undo the other commands), non-idempotent commands run twice", x.Pos()
+					}
+				}
+			}
+		}
+	})
+	if !okEnum {
+		r.Undecided("sendBisyncSync/unit-executed-once", f.Pos(), "too many paths")
+		return
+	}
+	r.Check(bad == "" && n > 0, "sendBisyncSync/unit-executed-once", pos, "%s", bad)
 }
